@@ -110,7 +110,7 @@ func judgeFailure(c Case, f failure, o observed, expPath []string, prefix string
 			verb, suffix = "errors.As(err, &custom)", "as"
 		}
 		if strings.Contains(text, f.text()) {
-			out = append(out, finding{prefix + "no-unwrap:node-error-" + suffix, fmt.Sprintf("%s is false although the text carries the original message: the chain stops at %s; error (%s): %s", verb, chainEnd(err), o.where(), clean(err))})
+			out = append(out, finding{"no-unwrap:node-error-" + suffix, fmt.Sprintf("%s is false although the text carries the original message: the chain stops at %s; error (%s): %s", verb, chainEnd(err), o.where(), clean(err))})
 		} else {
 			out = append(out, finding{prefix + "original-error-lost-" + suffix, fmt.Sprintf("%s is false and the text does not even contain the original message %q; error (%s): %s", verb, f.text(), o.where(), clean(err))})
 		}
@@ -233,9 +233,9 @@ func runCase(c Case) (fs []finding, execs int64, outcome string, err error) {
 			return nil, 0, "", &harnessErr{"compile: " + e.Error()}
 		}
 		o := runParadigm(ctx, r, c.Paradigm, msg)
-		prefix := "tool:"
+		prefix := ""
 		if c.isItem() {
-			prefix = "tool:error-item:"
+			prefix = "error-item:"
 		}
 		return judgeFailure(c, f, o, expectedPath(c.Levels, c.FailLevel, "t"), prefix), 0, outcomeOf(o), nil
 
@@ -338,7 +338,11 @@ func judgePair(c Case, fb, fc failure, o observed) []finding {
 	case bothErr:
 		if !fb.matches(err) && !fc.matches(err) {
 			if strings.Contains(text, fb.text()) || strings.Contains(text, fc.text()) {
-				out = append(out, finding{"parallel:no-unwrap:node-error", "two parallel nodes failed; the returned error matches neither original with errors.Is/errors.As although its text carries one of the original messages"})
+				sfx := "is"
+				if fb.kind == "custom" {
+					sfx = "as"
+				}
+				out = append(out, finding{"no-unwrap:node-error-" + sfx, "two parallel nodes failed; the returned error matches neither original with errors.Is/errors.As although its text carries one of the original messages"})
 			} else {
 				out = append(out, finding{"parallel:original-error-lost", "two parallel nodes failed; the returned error matches neither original and its text carries neither original message"})
 			}
